@@ -1861,7 +1861,10 @@ moreData:
 		}
 		if kind == kindHTTP {
 			if len(msg.Args) == 0 {
-				return nil, errInvalidHTTP
+				// the commands already read from this packet are still
+				// executed and answered, as for any other protocol error
+				err = errInvalidHTTP
+				break
 			}
 			msgs = append(msgs, msg)
 		} else if len(args) > 0 {
